@@ -40,6 +40,8 @@ _nonidempotent_insts.append("staticcall")
 # gas returns the remaining gas, which decreases as execution proceeds,
 # so two reads in the same call are not equivalent
 _nonidempotent_insts.append("gas")
+# every allocation is a distinct buffer
+_nonidempotent_insts.extend(("alloca", "palloca", "calloca"))
 
 NONIDEMPOTENT_INSTRUCTIONS = frozenset(_nonidempotent_insts)
 
